@@ -894,3 +894,96 @@ def index_builder_rows(ctx):
                  "message": f"build_index gives api_key_map {akm_p}; the entities carry the keys {want_keys} (a key of 0 is a key)"})
     rows.append({"ok": list(akm_p) == sorted(akm_p), "case": "api_key_map order", "message": f"api_key_map keys are not sorted: {list(akm_p)}"})
     return rows
+
+
+def special_name_rows(ctx):
+    """G16: the parser's name-based special cases (error codes, millisecond durations and timestamps) evaluated on the shipped
+    vocabulary: for every shipped scalar field, the (capitalised-word) name and its wire type must come out with the kafka_type the
+    shipped field carries -- an int16 named TopicConfigErrorCode stays int16, ErrorCode becomes error_code, TimeoutMs a duration."""
+    I = ctx.interp
+    S = ctx.schema
+    pm = _mod(ctx, "codegen.parser")
+    PF = pm.env.vars.get("PrimitiveField")
+    if not isinstance(PF, ClassV):
+        raise AnalysisError("anchor vanished: codegen.parser.PrimitiveField")
+    vals = []
+    for vname in ("special_case_error_code", "special_case_time_fields"):
+        try:
+            vals.append(I.getattr_(PF, vname, Run(), None))
+        except Raised:
+            raise AnalysisError(f"anchor vanished: codegen.parser.PrimitiveField.{vname}")
+    WIRE = {"error_code": ("int16", ""), "timedelta_i32": ("int32", "Ms"), "timedelta_i64": ("int64", "Ms"), "datetime_i64": ("int64", "Ms")}
+    seen = {}
+    for c in S.classes.values():
+        for f in c["fields"]:
+            kt = (f.get("metadata") or {}).get("kafka_type")
+            base, arr, outer, inner = S.base_of(f["type"])
+            if kt is None or arr:
+                continue
+            seen.setdefault((f["name"], kt), f"{c['key']}.{f['name']}")
+    rows = []
+    for (s, kt), where in sorted(seen.items()):
+        wire, suffix = WIRE.get(kt, (kt, ""))
+        camel = "".join(p.capitalize() for p in s.rstrip("_").split("_")) + suffix
+        cur = DictV({"name": camel, "type": wire})
+        err = None
+        for v in vals:
+            try:
+                cur = I.call(v, [cur], {}, Run(), None)
+            except Raised as r:
+                err = short_exc(r.cls)
+                break
+            except Limit as e:
+                raise AnalysisError(f"PrimitiveField special-case validators not understood: {e}")
+        if err is None and not isinstance(cur, DictV):
+            raise AnalysisError(f"special-case validators return {cur!r} for {camel}")
+        got = None if err else cur.d.get("type")
+        rows.append({"ok": got == kt, "construct": "codegen.parser:PrimitiveField", "stmt": f"special cases of {camel!r}: {wire}",
+                     "message": f"a {wire} field named {camel!r} comes out of the parser's special cases as {got or err!r}; the shipped field "
+                                f"{where} has kafka_type {kt!r}", "file": "codegen/parser.py", "line": PF.node.lineno})
+    return rows
+
+
+def custom_type_rows(ctx):
+    """G17: the definition the generator emits for every shipped custom type (kio/schema/types.py) is of the shipped kind and base:
+    `class TopicName(str): ...` -- a real subclass that isinstance() works on -- not an alias."""
+    I = ctx.interp
+    S = ctx.schema
+    gs = _mod(ctx, "codegen.generate_schema")
+    CT = gs.env.vars.get("CustomTypeDef")
+    if not isinstance(CT, ClassV):
+        raise AnalysisError("anchor vanished: codegen.generate_schema.CustomTypeDef")
+    P, members = primitive_members(ctx)
+    by_hint = {}
+    for m in members:
+        try:
+            by_hint[I.call(I.getattr_(m, "get_type_hint", Run(), None), [], {}, Run(), None)] = m
+        except (Raised, Limit):
+            pass
+    rows = []
+    if not S.custom_types:
+        raise AnalysisError("anchor vanished: no custom types found in kio/schema/types.py")
+    for ref, base in sorted(S.custom_types.items()):
+        name = ref.split(":")[1]
+        short = base.split(":")[-1]
+        m = by_hint.get(short)
+        if m is None:
+            rows.append({"ok": False, "case": name, "message": f"no Primitive has the type hint {short!r} that {name} derives from"})
+            continue
+        try:
+            inst = I.call(CT, [], {"name": name, "type_": m}, Run(), None)
+            code = I.call(I.getattr_(inst, "get_definition", Run(), None), [], {}, Run(), None)
+        except Raised as r:
+            rows.append({"ok": False, "case": name, "message": f"CustomTypeDef({name}).get_definition() raises {short_exc(r.cls)}"})
+            continue
+        except Limit as e:
+            raise AnalysisError(f"CustomTypeDef.get_definition not understood: {e}")
+        if not isinstance(code, str):
+            raise AnalysisError(f"CustomTypeDef({name}).get_definition() is not evaluated to a constant string: {code!r}")
+        try:
+            st = ast.parse(code).body
+        except SyntaxError:
+            st = []
+        ok = len(st) == 1 and isinstance(st[0], ast.ClassDef) and st[0].name == name and [ast.unparse(b) for b in st[0].bases] == [short]
+        rows.append({"ok": ok, "case": name, "message": f"the generator defines {name} as `{code.strip()}`; the shipped schema has `class {name}({short}): ...`"})
+    return rows
